@@ -363,4 +363,98 @@ func c16run(args []string) error {
 	return sc.Err()
 }
 
-func init() { cmds["c16-run"] = c16run }
+// c16-foreign <out.json>: tickets issued by ANOTHER server whose ticket key is guessable (32 zero bytes) or simply different,
+// to a client that presented a certificate, offered to servers configured in the ways the documentation lists.  The rule
+// of TLCPResume - a ticket is accepted only under a key in force on this server - leaves one outcome: a full handshake.
+func c16foreign(args []string) error {
+	f, err := loadFixtures()
+	if err != nil {
+		return err
+	}
+	type obsF struct {
+		Proto, Target, Forger string
+		Resumed, Complete     bool
+		PeerCerts             int
+		CliErr, SrvErr, Panic string
+	}
+	var out []obsF
+	for _, proto := range []string{"gm", "tls"} {
+		mk := func() (sc, cc *gmtls.Config) {
+			if proto == "gm" {
+				suites := []uint16{gmtls.GMTLS_SM2_WITH_SM4_SM3}
+				return &gmtls.Config{GMSupport: &gmtls.GMSupport{}, Certificates: []gmtls.Certificate{f.sig, f.enc}, CipherSuites: suites, ClientAuth: gmtls.RequireAndVerifyClientCert, ClientCAs: f.sm2CA},
+					&gmtls.Config{GMSupport: &gmtls.GMSupport{}, InsecureSkipVerify: true, CipherSuites: suites, ServerName: "foreign", Certificates: []gmtls.Certificate{f.auth}}
+			}
+			suites := []uint16{gmtls.TLS_RSA_WITH_AES_128_GCM_SHA256}
+			return &gmtls.Config{Certificates: []gmtls.Certificate{f.rsa}, CipherSuites: suites, ClientAuth: gmtls.RequireAndVerifyClientCert, ClientCAs: f.rsaCA, MaxVersion: gmtls.VersionTLS12},
+				&gmtls.Config{InsecureSkipVerify: true, CipherSuites: suites, ServerName: "foreign", Certificates: []gmtls.Certificate{f.rsaAuth}, MaxVersion: gmtls.VersionTLS12}
+		}
+		for _, forger := range []string{"zero key", "other key"} {
+			var fk [32]byte
+			if forger == "other key" {
+				for i := range fk {
+					fk[i] = byte(i*7 + 3)
+				}
+			}
+			for _, target := range []string{"default keys", "explicit keys", "clone", "GetConfigForClient", "GetConfigForClient, listener without tickets", "GetConfigForClient, inner config cloned"} {
+				fs, cc := mk()
+				fs.SetSessionTicketKeys([][32]byte{fk})
+				cache := gmtls.NewLRUClientSessionCache(2)
+				cc.ClientSessionCache = cache
+				o := obsF{Proto: proto, Target: target, Forger: forger}
+				run := func(sc *gmtls.Config) (r hsResult, cli, srv *gmtls.Conn) {
+					ce, se := tcpPair()
+					cli, srv = gmtls.Client(ce, cc), gmtls.Server(se, sc)
+					r = runHandshake(cli, srv, 15*time.Second)
+					cli.Close()
+					srv.Close()
+					return
+				}
+				if r, _, _ := run(fs); r.cliErr != nil || r.srvErr != nil || r.timedOut {
+					return fmt.Errorf("foreign: handshake with the issuing server: %v %v", r.cliErr, r.srvErr)
+				}
+				if _, ok := cache.Get("foreign"); !ok {
+					return fmt.Errorf("foreign: the issuing server gave no ticket")
+				}
+				ts, _ := mk()
+				switch target {
+				case "explicit keys":
+					var k [32]byte
+					k[0] = 1
+					ts.SetSessionTicketKeys([][32]byte{k})
+				case "clone":
+					ts = ts.Clone()
+				case "GetConfigForClient", "GetConfigForClient, listener without tickets", "GetConfigForClient, inner config cloned":
+					inner := ts
+					if target == "GetConfigForClient, inner config cloned" {
+						inner = ts.Clone()
+					}
+					outer, _ := mk()
+					outer.SessionTicketsDisabled = target == "GetConfigForClient, listener without tickets"
+					outer.GetConfigForClient = func(*gmtls.ClientHelloInfo) (*gmtls.Config, error) { return inner, nil }
+					ts = outer
+				}
+				r, _, srv := run(ts)
+				o.Complete = r.cliErr == nil && r.srvErr == nil && !r.timedOut && r.cliPanic == nil && r.srvPanic == nil
+				o.Resumed = srv.ConnectionState().DidResume
+				o.PeerCerts = len(srv.ConnectionState().PeerCertificates)
+				if r.cliErr != nil {
+					o.CliErr = r.cliErr.Error()
+				}
+				if r.srvErr != nil {
+					o.SrvErr = r.srvErr.Error()
+				}
+				if r.srvPanic != nil {
+					o.Panic = fmt.Sprint("server: ", r.srvPanic)
+				} else if r.cliPanic != nil {
+					o.Panic = fmt.Sprint("client: ", r.cliPanic)
+				}
+				out = append(out, o)
+			}
+		}
+	}
+	b, _ := json.Marshal(out)
+	return os.WriteFile(args[0], b, 0644)
+}
+
+func init() { cmds["c16-run"] = c16run; cmds["c16-foreign"] = c16foreign }
